@@ -1,7 +1,9 @@
 ---------------------------- MODULE MCGetRecord ----------------------------
 (***************************************************************************)
 (* Model-checking harness for GetRecord: callers ask (the second one at    *)
-(* any point, for the same or another key, with the same or another cfg),  *)
+(* any point, for the same or another key, with the same or another cfg,   *)
+(* also one differing only in is_register), a waiting caller may give up   *)
+(* (Cancel: every other caller is still owed its outcome),                 *)
 (* peers reply in every order, repeatedly, with any of three content       *)
 (* versions, under the requested or a foreign key; every query ends by one *)
 (* of the four terminating events (or by reaching its quorum); late events *)
@@ -36,10 +38,10 @@ vars == <<st, g, uni, cnt, bad, hist, n>>
 
 FalsifiedBy(x) == {v.clause : v \in {y \in Verdicts(x) : y.kf \notin KnownMask}}
 
-\* Scenario classes that are switched on by an environment variable (default off):
+\* Scenario classes that an environment variable set to "0" switches off (on by default since the repairs e7b3363 / 72698cf in /repo):
 \*   VERIF_ENABLE_C05_CANCEL   simulated behaviours (replayed on the real code) contain Cancel steps
 \*   VERIF_ENABLE_C05_FOREIGN  client-side split cases contain a register of another base / a foreign owner's scratchpad
-EnvOn(name) == name \in DOMAIN IOEnv /\ IOEnv[name] = "1"
+EnvOn(name) == ~(name \in DOMAIN IOEnv /\ IOEnv[name] = "0")
 CancelOn == EnvOn("VERIF_ENABLE_C05_CANCEL")
 ForeignOn == EnvOn("VERIF_ENABLE_C05_FOREIGN")
 
